@@ -195,6 +195,22 @@ CHECKS = {
         technique='Coq proof (generator protocol: restored state, seed-only dependence) + call-trace correspondence + '
                   'extracted-model replay + reordering/reproducibility oracle',
         design='7 C14'),
+    'C05': dict(
+        text='Theorems over a model of PandasComparison.check_dataframe for all frames, option records (None/False/list per '
+             'check) and type-matching levels: whenever every selected column is a reference column the comparison returns a '
+             'verdict (never an internal error), and the verdict is "same" exactly when the type-checked columns exist with '
+             'matching types, no checked extra column exists, the relative order of the order-checked columns agrees, the row '
+             'counts agree and every value-checked column agrees cell by cell, nulls equal to nulls; a copy always passes; a '
+             'missing/renamed, retyped, extra or moved column, a different row count or one differing checked value always '
+             'fails. check_dataframe on generated reference/mutant pairs x option shapes x level x precision is compared '
+             'component by component with the extracted model, types_match on all pairs of dtype names, and an independent '
+             'statement of the property decides every case incl. the assert* entry points with sortby / condition / parquet.',
+        note='partial: cell equality is relative to an oracle (pandas round() and eq decide the tokens the model compares); '
+             'sort_values, the condition filter and parquet/CSV loading are applied by pandas before abstraction. Known finding: '
+             'object columns holding pd.NA make pandas raise inside Series.eq.',
+        technique='Coq proof (check_dataframe_spec iff, copy_passes, difference_fails) + extracted-model correspondence + '
+                  'verdict oracle over mutation kinds and entry points',
+        design='7 C05'),
 }
 
 NOT_YET = {}
